@@ -831,6 +831,15 @@ func healCorpus() []*healCase {
 	out = append(out, &healCase{Class: "corpus/dir->link-to-equal-dir-inside", Signed: s4, Damages: []string{"dir->link-to-dir:d0"},
 		Damaged: hTree{"t0": dir, "t0/d0": hNode{Kind: "link", Dest: "x1"},
 			"t0/x1": dir, "t0/x1/d1": dir, "t0/x1/d1/d2": dir, "t0/x1/l0": hNode{Kind: "link", Dest: "d1"}, "t0/x1/f0": file("")}})
+	// a symlink replaced by a non-empty directory (the healer must remove it recursively), a
+	// retargeted symlink, an emptied and a deleted file
+	s5 := hTree{"d0": dir, "d0/l0": hNode{Kind: "link", Dest: "../f1"}, "l1": hNode{Kind: "link", Dest: "n1"}, "f1": file("x"), "d0/f2": file("yy"), "f3": file("")}
+	out = append(out, &healCase{Class: "corpus/link->dir+retarget+emptied", Signed: s5,
+		Damages: []string{"link->dir:d0/l0", "retarget:l1", "emptied:d0/f2", "delete:f1"},
+		Damaged: hTree{"t0": dir, "t0/d0": dir, "t0/d0/l0": dir, "t0/d0/l0/x1": file("y"), "t0/d0/l0/x2": dir,
+			"t0/l1": hNode{Kind: "link", Dest: "n2"}, "t0/d0/f2": file(""), "t0/f3": file("")}})
+	// a valid directory: nothing may be touched
+	out = append(out, &healCase{Class: "corpus/valid", Signed: s5, Damaged: validTree(s5)})
 	for _, hc := range out {
 		hc.Procs = []int{1, 2, 16}
 	}
